@@ -709,6 +709,26 @@ func c16FinaliseRtsp(c *fw.Ctx, i int) {
 	defer s.Stop()
 	name := fmt.Sprintf("q%d", i)
 	ways := []string{"close", "kick", "idle", "teardown"}
+	if i%10 == 3 {
+		// the name has a history: an RTMP publisher was here before (its RTMP→RTSP remuxer included) and a
+		// player that stays attached has kept the stream's state alive since
+		if keep, err := c16StartCons(s, "rtmp", name, 0); err == nil {
+			defer keep.close()
+			if p0, err := ref.StartRtmpPublisher(s.RtmpAddr(), "live", name, 5*time.Second); err == nil {
+				es0 := gen.BuildEs(c.SubRng("rtmp-before"), 9, gen.EsSpec{VCodec: "avc", ACodec: "aac", AacIdx: 4, AacChans: 2, AacObj: 2, NVideo: 24, GopLen: 6, AudioPer: 1, MaxNals: 1})
+				for _, m := range es0.RtmpMessages(true) {
+					if p0.RC.Send(ref.RtmpMsg{Csid: csidFor(m.Type), TypeID: m.Type, StreamID: p0.Msid, Ts: m.Ts, Payload: m.Payload}, 0) != nil {
+						break
+					}
+				}
+				time.Sleep(150 * time.Millisecond)
+				k0 := srv.Key(p0.RC.Conn)
+				p0.Close()
+				s.Notify.WaitSession(3*time.Second, "pub_stop", k0)
+				c.Count("rtsp_cycles_after_an_rtmp_publisher", 1)
+			}
+		}
+	}
 	for cyc := 0; cyc < K; cyc++ {
 		inc := cyc + 1
 		codec := [][2]string{{"avc", "aac"}, {"hevc", "aac"}, {"avc", ""}, {"", "aac"}, {"hevc", ""}}[(i/5+cyc*2+r.Intn(2))%5]
@@ -760,11 +780,20 @@ func c16FinaliseRtsp(c *fw.Ctx, i int) {
 		}
 		hook := hooks.Latest(name)
 		var joiners []*c16Cons
+		var rtspPlayer *ref.RtspClient
 		for k, p := range pkts[:n] {
 			if k == len(pkts)/3 {
 				for _, kind := range []string{"rtmp", "flv", "ts"} {
 					if x, err := c16StartCons(s, kind, name, inc); err == nil {
 						joiners = append(joiners, x)
+					}
+				}
+				// an RTSP player of this incarnation: one RTP source per track, whatever was on the name before
+				if pl, err := ref.DialRtsp(s.RtspAddr(), 3*time.Second); err == nil {
+					if _, err := pl.Play(url, false, 3*time.Second); err == nil {
+						rtspPlayer = pl
+					} else {
+						pl.Close()
 					}
 				}
 			}
@@ -781,6 +810,28 @@ func c16FinaliseRtsp(c *fw.Ctx, i int) {
 			}
 		}
 		time.Sleep(150 * time.Millisecond)
+		if rtspPlayer != nil {
+			ssrc := map[int]map[uint32]int{}
+			for _, rp := range rtspPlayer.Packets() {
+				if rp.Channel%2 != 0 {
+					continue
+				}
+				if p, err := ref.ParseRtp(rp.Data); err == nil {
+					if ssrc[rp.Channel] == nil {
+						ssrc[rp.Channel] = map[uint32]int{}
+					}
+					ssrc[rp.Channel][p.Ssrc]++
+				}
+			}
+			c.Count("rtsp_players_ssrc_checked", 1)
+			for ch, m := range ssrc {
+				if len(m) > 1 {
+					c.Violate("leak/rtsp-second-source", fmt.Sprintf("an RTSP player of incarnation %d received RTP from %d sources on channel %d (packets per SSRC %v): something left over from an earlier input of the name is still packetising this stream | %s", inc, len(m), ch, m, desc), nil)
+					break
+				}
+			}
+			rtspPlayer.Close()
+		}
 		if gapRtsp != nil {
 			select {
 			case <-gapDone:
@@ -1768,7 +1819,7 @@ func init() {
 		},
 		Setup:       c16Setup,
 		CaseTimeout: func(string) time.Duration { return 4 * time.Minute },
-		Rule:        "whole-server runs with HLS (disk), FLV and TS recorders, relay push to a stub target, the stream hook and RTMP/FLV/TS consumers. Finalise scenarios (3 of 5 cases with an RTMP publisher; 1 of 5 with an RTSP publisher over interleaved TCP or UDP ended by close / kick / silence / TEARDOWN, outputs checked structurally): 3–5 incarnations of one stream name with changing codec pairs (AVC/HEVC/enhanced HEVC/none × AAC/none); each incarnation is cut at a seeded instant (nothing sent, headers only, right after a key frame, after an audio frame with batched audio pending, a few messages after mid-GOP joiners attached, mid-stream, complete) by close / API kick / going silent (check interval 2 s; in half of these after having trickled its last messages over 4.8 s, i.e. after being found alive by at least two checks) / server Dispose. Observed right after each end: stream-hook OnStop calls = 1 and OnMsg calls = messages published; push target connection closed; exactly one FLV and one TS recording, FLV parses to EOF and equals the published audio/video messages, TS passes the C06 frame oracle to the last video and audio frame (flush); live and record playlists parse, one ENDLIST, every segment file listed and present, segments pass the frame oracle to the last frame; idle publisher gets pub_stop ≤ 2·interval+3 s+2 s and its socket closes; joiners of an incarnation see only its tags; players that join while the name has no input see only the next incarnation's tags and do receive its frames; long-lived consumers never see an older incarnation after a newer one, and the long-lived HTTP-TS consumer sees each incarnation's frames under a PMT that declares that incarnation's codecs; stat codec fields equal the current input's; the group leaves /api/stat/all_group ≤ 8 s after the last session. Re-publish scenarios (1 of 10): cleanup_mode 1/2 with a 1.5 s delayed directory cleanup, a second publisher of the name arriving at once and staying live across the first one's cleanup timer — live playlist and listed segments must be on disk while it is live and finalised when it ends, directory removed after the last end. RTSP-pull scenarios (4 extra cases, thorough 20): lal relay-pulls a stream from its own RTSP server (TCP/UDP) into another name; the pull ends by stop_relay_pull / kick / end of the origin stream — relay_pull_stop ≤ 6 s, hook OnStop exactly once, ENDLIST in the pulled stream's playlist, group removed ≤ 8 s, a publisher of the name admitted. Late-push scenarios (4 extra cases, thorough 20): the push target withholds its answer to `publish` until the publisher has left by close or kick (and, alternately, answers in time) — its connection must be closed within 4 s either way. Pull-dispose scenarios (4 extra cases, thorough 20): the input is a relay pull (attached, or its attempt held in flight by the origin) and the server is shut down — the origin connection must be closed within 4 s. Resource scenarios (1 of 5): 3 warm-up cycles, baseline goroutines and /proc/self/fd with no session left, 6 (thorough 12) cycles with RTMP/FLV/TS/RTSP-TCP/RTSP-UDP consumers, abandoned RTSP DESCRIBE/SETUP, aborted RTMP handshakes, HLS and API requests, ends by close/kick/consumers-first; growth ≥ 1 per 2 cycles is a leak. cell = end way × end instant × codec pair. Mid-GOP RTMP / HTTP-FLV / HTTP-TS joiners of an incarnation that ends before its next key frame (GOP caches off in those cases) stay attached: the successor - audio only in every eighth case - must serve them (carried-joiner-starved). An RTSP player whose DESCRIBE arrives between two publishers (RTMP or RTSP) is described the successor's stream, never a predecessor's.",
+		Rule:        "whole-server runs with HLS (disk), FLV and TS recorders, relay push to a stub target, the stream hook and RTMP/FLV/TS consumers. Finalise scenarios (3 of 5 cases with an RTMP publisher; 1 of 5 with an RTSP publisher over interleaved TCP or UDP ended by close / kick / silence / TEARDOWN, outputs checked structurally): 3–5 incarnations of one stream name with changing codec pairs (AVC/HEVC/enhanced HEVC/none × AAC/none); each incarnation is cut at a seeded instant (nothing sent, headers only, right after a key frame, after an audio frame with batched audio pending, a few messages after mid-GOP joiners attached, mid-stream, complete) by close / API kick / going silent (check interval 2 s; in half of these after having trickled its last messages over 4.8 s, i.e. after being found alive by at least two checks) / server Dispose. Observed right after each end: stream-hook OnStop calls = 1 and OnMsg calls = messages published; push target connection closed; exactly one FLV and one TS recording, FLV parses to EOF and equals the published audio/video messages, TS passes the C06 frame oracle to the last video and audio frame (flush); live and record playlists parse, one ENDLIST, every segment file listed and present, segments pass the frame oracle to the last frame; idle publisher gets pub_stop ≤ 2·interval+3 s+2 s and its socket closes; joiners of an incarnation see only its tags; players that join while the name has no input see only the next incarnation's tags and do receive its frames; long-lived consumers never see an older incarnation after a newer one, and the long-lived HTTP-TS consumer sees each incarnation's frames under a PMT that declares that incarnation's codecs; stat codec fields equal the current input's; the group leaves /api/stat/all_group ≤ 8 s after the last session. Re-publish scenarios (1 of 10): cleanup_mode 1/2 with a 1.5 s delayed directory cleanup, a second publisher of the name arriving at once and staying live across the first one's cleanup timer — live playlist and listed segments must be on disk while it is live and finalised when it ends, directory removed after the last end. RTSP-pull scenarios (4 extra cases, thorough 20): lal relay-pulls a stream from its own RTSP server (TCP/UDP) into another name; the pull ends by stop_relay_pull / kick / end of the origin stream — relay_pull_stop ≤ 6 s, hook OnStop exactly once, ENDLIST in the pulled stream's playlist, group removed ≤ 8 s, a publisher of the name admitted. Late-push scenarios (4 extra cases, thorough 20): the push target withholds its answer to `publish` until the publisher has left by close or kick (and, alternately, answers in time) — its connection must be closed within 4 s either way. Pull-dispose scenarios (4 extra cases, thorough 20): the input is a relay pull (attached, or its attempt held in flight by the origin) and the server is shut down — the origin connection must be closed within 4 s. Resource scenarios (1 of 5): 3 warm-up cycles, baseline goroutines and /proc/self/fd with no session left, 6 (thorough 12) cycles with RTMP/FLV/TS/RTSP-TCP/RTSP-UDP consumers, abandoned RTSP DESCRIBE/SETUP, aborted RTMP handshakes, HLS and API requests, ends by close/kick/consumers-first; growth ≥ 1 per 2 cycles is a leak. cell = end way × end instant × codec pair. Mid-GOP RTMP / HTTP-FLV / HTTP-TS joiners of an incarnation that ends before its next key frame (GOP caches off in those cases) stay attached: the successor - audio only in every eighth case - must serve them (carried-joiner-starved). An RTSP player whose DESCRIBE arrives between two publishers (RTMP or RTSP) is described the successor's stream, never a predecessor's. In half of the RTSP-publisher cases the name was used by an RTMP publisher before and kept alive by a player: an RTSP player of the RTSP incarnation gets one RTP source per track.",
 		Assumptions: []string{"recording and HLS files of one incarnation are inspected and then removed by the harness before the next incarnation starts (lal names recordings by second, so back-to-back incarnations would otherwise share a file name)", "goroutine and descriptor counts include the harness's own; every harness connection is closed before counting and only growth proportional to the number of cycles is judged"},
 		MinCells:    10,
 		Run: func(c *fw.Ctx, i int) {
